@@ -328,3 +328,12 @@ ASSUMPTIONS = [
 EXPLANATION = ('operation kinds forked; timestamps and values are z3 terms so earlier/later/equal and equal/different values '
                'are all inside each query; every sync order is run on the real code inside the same path and the negated '
                'equalities (order independence, documented winner, causal override) must be unsat')
+
+
+# Engine K: the compiled transform against the documented conflict table and its mirror symmetry, all pairs of operations over
+# 3 uuids, strings of length 0-1 over two letters, timestamps in 0..4e9 (thorough tier: 2-6 minutes of CBMC)
+KANI = {
+    'quick': [],
+    'thorough': [('k_transform_table', 'SUCCESSFUL'), ('k_transform_table_reach', 'FAILED'), ('k_transform_symmetric', 'SUCCESSFUL')],
+}
+KANI_TIMEOUT = 1500
